@@ -1,7 +1,7 @@
 """C06 — byte mode is exact and binary-safe.  Oracle: implementation vs executed specBytes."""
 from cases import evaluate, run_corpus
 from common import case_line
-from gen import bytes_upto, rand_bounds
+from gen import bound_text, bytes_upto, rand_bounds
 
 LEVEL = "proof"
 COUNTS = ["b"]        # modes of cases.count_thresholds
@@ -60,6 +60,27 @@ def _run_once(chk):
             chk.report_oracle("CLI: a large byte slice is not reproduced exactly",
                               {"argv": argv, "stdin_bytes": len(data), "stdin_sha": __import__("hashlib").sha1(data).hexdigest(), "exit": st, "stdout_bytes": len(out),
                                "expected_bytes": hi - lo + 1, "first_difference_at": next((i for i, (x, y) in enumerate(zip(out, data[lo - 1:hi])) if x != y), min(len(out), hi - lo + 1))})
+
+    # the real binary on small inputs that START with a magic number (byte order marks, #!, gzip, ELF, PNG, a lone NUL …): binary-safe
+    # means they are bytes like any other, whatever main does with stdin before the cutter sees it; expected = plain python slicing
+    small = []
+    MAGIC = [b"\xef\xbb\xbf", b"\xff\xfe", b"\xfe\xff", b"\xff\xfe\x00\x00", b"#!", b"#!/bin/sh\n", b"\x1f\x8b", b"\x7fELF", b"\x89PNG\r\n", b"\x00",
+             b"\r\n", b"\n", b"\xff", b"PK\x03\x04", b"%PDF", b"\x1b["]
+    for _ in range(400 if chk.tier == "quick" else 4000):
+        data = rng.choice(MAGIC) + bytes(rng.choice([0, 10, 13, 97, 255, 239, 187, 191]) for _ in range(rng.randint(0, 6)))
+        n = len(data)
+        l, r = rng.choice([(1, None), (1, 3), (2, None), (-1, -1), (n, n), (1, 1), (None, 2), (-n, -n), (4, 4)])
+        if resolve_py(l, r, n) is None:
+            l, r = 1, None
+        small.append((["-b", bound_text(l, r, None, l == r)], data, (l, r)))
+    for (argv, data, (l, r)), (st, out) in zip(small, run_cli(tuc, [(a, d) for a, d, _ in small])):
+        chk.evaluations += 1
+        chk.count("cli:magic-prefix")
+        chk.nontrivial_add(("magic", argv[1], data))
+        lo, hi = resolve_py(l, r, len(data))
+        if st != "0" or out != data[lo - 1:hi]:
+            chk.report_oracle("CLI: an input that starts with a magic number is not cut byte for byte",
+                              {"argv": argv, "stdin_hex": data.hex(), "exit": st, "stdout_hex": out.hex(), "expected_hex": data[lo - 1:hi].hex()})
 
 
 def run(chk):
